@@ -79,7 +79,10 @@ def cases(tier, seed, args):
         for i in range(n * 2):
             out.append(dict(t='wmwf', mu=float(rng.choice([0.0, 0.5, 1.0, 10.0, 100.0, rng.uniform(0, 100)])), **base(i)))
         for i in range(n):
-            out.append(dict(t='refch', which=['souden', 'wmwf'][i % 2], **base(i)))
+            out.append(dict(t='refch', which=['souden', 'wmwf'][i % 2], js=[1.0, 1e-18, 1e12, 1e-24][(i // 2) % 4], **base(i)))
+        for i in range(4 if q else 12):
+            # the automatic WMWF reference on very quiet recordings (every joint scale, several sizes)
+            out.append(dict(t='refch', which='wmwf', js=[1e-18, 1e-24][i % 2], **dict(base(i), D=int(rng.integers(3, 7)), F=int(rng.integers(2, 6)))))
         for i in range(n * 3):
             D = [2, 3, 2, 3, 4][i % 5]
             out.append(dict(t=['mvdrx', 'soudenx', 'wmwfx'][i % 3], D=D, F=int(rng.integers(1, 5)),
@@ -393,7 +396,7 @@ def run_case(case):
             phix = 1e-3 * sigma[:, None, None] * np.einsum('fd,fe->fde', a, a.conj())
             fp += ';dead_sensor_weak_target'
         # joint scale of both PSDs (the criterion is a ratio): ordinary, very quiet, very loud recordings
-        js = [1.0, 1e-18, 1e12, 1e-24][case['seed'] % 4]
+        js = case.get('js') or [1.0, 1e-18, 1e12, 1e-24][case['seed'] % 4]
         phin, phix = phin * js, phix * js
         fp += f';scale={js:g}'
         if case['which'] == 'souden':
